@@ -407,7 +407,8 @@ pub fn optimum_poling_period(
     1e-12,
   );
 
-  if max_period < period || period < min_period {
+  // (also true when no period could be determined at all: period is NaN)
+  if !(min_period <= period && period <= max_period) {
     Err(SPDCError::new(IMPOSSIBLE_POLING_PERIOD.to_string()))
   } else {
     Ok(sign * period * M)
